@@ -11,6 +11,7 @@ import (
 	"sort"
 	"strings"
 
+	"golang.org/x/tools/go/callgraph"
 	"golang.org/x/tools/go/ssa"
 )
 
@@ -404,10 +405,7 @@ func checkMacroBudget(c *Ctx) {
 						leaves := backSlice(cl.Call.Args[0], &SliceOpts{P: p, IsSource: func(v ssa.Value) bool {
 							return isCallNamed(v, "(*core.Keys).readInputFiltered")
 						}, Through: func(c *ssa.Call) []ssa.Value {
-							if calleeName(c) == "strutil.ConvertMeta" {
-								return c.Call.Args
-							}
-							return nil
+							return readCarrier(p, c)
 						}})
 						reads = len(leaves) > 0
 						for _, l := range leaves {
@@ -963,9 +961,92 @@ func checkRound5Small(c *Ctx, id string) {
 					}
 				}
 				r.Check(okAll, "C05.character-keys-returned", fmt.Sprintf("(*keymap.Engine).dispatchCharacter:return#%d", n), p.IPos(in), "returns the bytes read", "this exit returns keys that are not the bytes read (a never-assigned result): the bytes of the unfinished character are neither pushed back nor marked, and are lost when the rest arrives in the next read")
+				// an exit that can be reached after a continuation byte was popped returns the grown character, not the bytes as given:
+				// a popped byte that is not handed back is neither pushed back nor marked as matched
+				grown := func(x ssa.Value) bool {
+					cl, ok := x.(*ssa.Call)
+					if !ok {
+						return false
+					}
+					b, ok := cl.Call.Value.(*ssa.Builtin)
+					return ok && b.Name() == "append"
+				}
+				for _, pop := range callsTo(DC, false, "core.PopKey", "(*core.Keys).Pop") {
+					if pathAvoiding(DC, pop, func(x ssa.Instruction) bool { return x == in }, func(ssa.Instruction) bool { return false }) == nil {
+						continue
+					}
+					inc := dependsOn(ret.Results[2], grown)
+					r.Check(inc, "C05.character-keys-returned", fmt.Sprintf("(*keymap.Engine).dispatchCharacter:return#%d:popped-bytes", n), p.IPos(in), "reachable after a pop: returns the character grown by the popped bytes", "this exit can be reached after continuation bytes were popped from the key queue, but returns the bytes as they were given: the popped bytes are neither pushed back nor inserted, so a character cut after its second byte by a read boundary is lost")
+				}
 			})
 		} else {
 			r.Unk("C05.character-keys-returned", "(*keymap.Engine).dispatchCharacter", "-", "anchor not found")
+		}
+		// what a read returns is decoded as UTF-8 only up to its last whole character
+		r.Rule("C05.decode-whole-characters", "K3", "on the path of WaitAvailableKeys, bytes that come straight from a terminal read are decoded to runes ([]rune(string(b))) only after a test that their last character is whole (utf8.FullRune / Valid / DecodeLastRune deciding what is decoded): a read can end in the middle of a character, and its first bytes decoded alone become U+FFFD, so that the text typed depends on how it was chunked", 1)
+		if WK := p.Func("core.WaitAvailableKeys"); WK != nil {
+			fs := []*ssa.Function{WK}
+			for _, cl := range allCalls(WK, false) {
+				if h := staticCallee(cl); h != nil && inRepo(h) && len(h.Blocks) > 0 && h.Package() == WK.Package() && !strings.Contains(fnName(h), "readInputFiltered") {
+					fs = append(fs, h)
+				}
+			}
+			isRead := func(f *ssa.Function) func(ssa.Value) bool {
+				return func(v ssa.Value) bool {
+					if cl, ok := v.(*ssa.Call); ok && strings.Contains(calleeName(cl), "readInputFiltered") {
+						return true
+					}
+					if pa, ok := v.(*ssa.Parameter); ok && f != WK {
+						if sl, ok := pa.Type().Underlying().(*types.Slice); ok {
+							if b, ok := sl.Elem().Underlying().(*types.Basic); ok && b.Kind() == types.Uint8 {
+								return true
+							}
+						}
+					}
+					return false
+				}
+			}
+			isWholeTest := func(v ssa.Value) bool {
+				cl, ok := v.(*ssa.Call)
+				if !ok {
+					return false
+				}
+				switch calleeName(cl) {
+				case "unicode/utf8.FullRune", "unicode/utf8.Valid", "unicode/utf8.DecodeLastRune", "unicode/utf8.FullRuneInString", "unicode/utf8.ValidString":
+					return true
+				}
+				return false
+			}
+			n := 0
+			seenF := map[*ssa.Function]bool{}
+			for _, f := range fs {
+				if seenF[f] {
+					continue
+				}
+				seenF[f] = true
+				eachInstr(f, func(in ssa.Instruction) {
+					cv, ok := in.(*ssa.Convert)
+					if !ok || typeStr(cv.Type()) != "[]rune" {
+						return
+					}
+					inner, ok := cv.X.(*ssa.Convert)
+					if !ok || typeStr(inner.X.Type()) != "[]byte" {
+						return
+					}
+					if !dependsOn(inner.X, isRead(f)) {
+						return
+					}
+					r.Fn(fnName(f))
+					guarded := dependsOn(inner.X, isWholeTest)
+					r.Check(guarded, "C05.decode-whole-characters", siteKey(f, "decode-read", n), p.IPos(cv), "what is decoded is decided by a whole-character test", "the bytes of a terminal read are decoded to runes as they came: when the read ends inside a multibyte character (a paste cut at the read size, a slow link), its first bytes become U+FFFD and the character is lost — the same bytes in one read are decoded correctly")
+					n++
+				})
+			}
+			if n == 0 {
+				r.OK("C05.decode-whole-characters", "core.WaitAvailableKeys:no-decode", p.Pos(WK.Pos()), "the read bytes are not decoded to runes on this path")
+			}
+		} else {
+			r.Unk("C05.decode-whole-characters", "core.WaitAvailableKeys", "-", "anchor not found")
 		}
 		// ConvertMeta converts every key: the input is returned as it is only when empty
 		r.Rule("C05.convert-every-key", "K4", "strutil.ConvertMeta returns its argument unconverted only when it is empty: the conversion of a read applies to every Meta character in it, wherever it stands — a shortcut on the first key leaves a Meta character that is not first in its read unconverted, so the same bytes mean different things depending on how they are chunked", 1)
@@ -1107,6 +1188,79 @@ func checkRound5Small(c *Ctx, id string) {
 			r.Unk("C06.autosuggest-at-end", "(*readline.Shell).insertAutosuggestPartial", "-", "anchor not found")
 		}
 	case "C20":
+		// the completion grid rebuilt on a resize is laid out for the new width
+		r.Rule("C20.resize-fresh-width", "K3", "the terminal width a completion group is laid out for (group.termWidth) is asked from the terminal (term.GetWidth) when the group is built, or comes from an Engine field that every exported Engine method reaching the group constructor — GenerateCached, run by the resize watcher, among them — writes before reaching it: a width cached by the other entry points leaves the grid rebuilt on SIGWINCH laid out for the old width (rows wrap, the rows used are undercounted, every redisplay moves the prompt down)", 1)
+		if NCG := p.Func("(*completion.Engine).newCompletionGroup"); NCG != nil {
+			r.Fn(fnName(NCG))
+			n := 0
+			eachInstr(NCG, func(in ssa.Instruction) {
+				st, ok := isFieldStore(in, "completion.group", "termWidth")
+				if !ok {
+					return
+				}
+				key := siteKey(NCG, "store(termWidth)", n)
+				n++
+				v := stripConv(st.Val)
+				if cl, isC := v.(*ssa.Call); isC && calleeName(cl) == "term.GetWidth" {
+					r.OK("C20.resize-fresh-width", key, p.IPos(st), "asked from the terminal when the group is built")
+					return
+				}
+				u, isU := v.(*ssa.UnOp)
+				var tn, fld string
+				okF := false
+				if isU && u.Op == token.MUL {
+					tn, fld, okF = fieldOf(u.X)
+				}
+				if !okF || tn != "completion.Engine" {
+					r.Unk("C20.resize-fresh-width", key, p.IPos(st), "the width of the group is neither term.GetWidth() nor an Engine field: "+p.descValue(v))
+					return
+				}
+				// every exported Engine method from which the constructor is reachable inside the package writes the field first
+				pkgOnly := func(e *callgraph.Edge) bool {
+					return e.Callee.Func != nil && e.Callee.Func.Package() == NCG.Package() || (e.Callee.Func != nil && e.Callee.Func.Parent() != nil && inRepo(e.Callee.Func))
+				}
+				bad := ""
+				for _, E := range p.RepoFuncs {
+					if E.Package() != NCG.Package() || E.Signature.Recv() == nil || !token.IsExported(E.Name()) || len(E.Blocks) == 0 {
+						continue
+					}
+					reach := p.reachFrom([]*ssa.Function{E}, pkgOnly)
+					if _, ok := reach[NCG]; !ok || E == NCG {
+						continue
+					}
+					isW := func(x ssa.Instruction) bool { _, ok := isFieldStore(x, tn, fld); return ok }
+					leads := func(x ssa.Instruction) bool {
+						cl, ok := x.(ssa.CallInstruction)
+						if !ok {
+							return false
+						}
+						h := staticCallee(cl)
+						if h == nil {
+							// dynamic call (the closure handed to EachTag): conservatively leads there
+							return !cl.Common().IsInvoke() && cl.Common().StaticCallee() == nil && false
+						}
+						if h == NCG {
+							return true
+						}
+						sub := p.reachFrom([]*ssa.Function{h}, pkgOnly)
+						_, ok = sub[NCG]
+						return ok && h.Package() == NCG.Package()
+					}
+					if w := pathAvoiding(E, nil, leads, isW); w != nil {
+						bad = fnName(E)
+						r.Bad("C20.resize-fresh-width", key+"|"+fnName(E), p.IPos(w), fnName(E)+" reaches the group constructor without writing "+tn+"."+fld+" first: the groups it builds are laid out for the terminal width of an earlier generation — on a resize (GenerateCached) the grid keeps the old width")
+					}
+				}
+				if bad == "" {
+					r.OK("C20.resize-fresh-width", key, p.IPos(st), "every exported entry writes "+fld+" before building groups")
+				}
+			})
+			if n == 0 {
+				r.Unk("C20.resize-fresh-width", fnName(NCG)+":store(termWidth)", p.Pos(NCG.Pos()), "the group constructor does not set the width: anchor changed")
+			}
+		} else {
+			r.Unk("C20.resize-fresh-width", "(*completion.Engine).newCompletionGroup", "-", "anchor not found")
+		}
 		r.Rule("C20.reading-before-read", "K1", "(*Keys).ReadKey announces itself (stores reading = true) before it can read the terminal or wait for the main loop's keys, on every path: GetCursorPos, run by a resize or a Printf from another goroutine, reads the terminal itself unless waiting or reading is set — two readers on one terminal lose a key or park forever on the cursor channel", 1)
 		if RK := p.Func("(*core.Keys).ReadKey"); RK != nil {
 			r.Fn(fnName(RK))
@@ -1180,6 +1334,75 @@ func checkRound5Small(c *Ctx, id string) {
 			r.Unk("C02.bind-sequences-converted", "(*keymap.Engine).matchBind", "-", "anchor not found")
 		}
 	case "C14":
+		// the prefix the candidates replace is computed afresh by every generation
+		r.Rule("C14.prefix-fresh", "K1", "every function that computes the completion prefix (calls setPrefix) writes Engine.prefix on every path before it returns or generates: setPrefix leaves the field alone when there is no word before the cursor, so a prefix left by an earlier (cancelled) completion would be cut from a line that does not hold it", 1)
+		if SP := p.Func("(*completion.Engine).setPrefix"); SP != nil {
+			n := 0
+			for _, e := range p.callersOf(SP) {
+				F := e.Caller.Func
+				if F == nil || !inRepo(F) {
+					continue
+				}
+				n++
+				r.Fn(fnName(F))
+				isStore := func(in ssa.Instruction) bool {
+					_, ok := isFieldStore(in, "completion.Engine", "prefix")
+					return ok
+				}
+				use := func(in ssa.Instruction) bool {
+					return isReturn(in) || isCallTo(in, "(*completion.Engine).generate")
+				}
+				w := pathAvoiding(F, nil, use, isStore)
+				r.Check(w == nil, "C14.prefix-fresh", fnName(F)+":prefix-written", p.Pos(F.Pos()), "Engine.prefix is written on every path", "a path through "+fnName(F)+" reaches the generation of the candidates without writing Engine.prefix (setPrefix returns early when there is no character before the cursor): the prefix of a previous, cancelled completion is cut from the line — text after the cursor is lost when completing at the beginning of the line")
+			}
+			if n == 0 {
+				r.Unk("C14.prefix-fresh", "(*completion.Engine).setPrefix:callers", p.Pos(SP.Pos()), "setPrefix has no caller")
+			}
+		} else {
+			r.Unk("C14.prefix-fresh", "(*completion.Engine).setPrefix", "-", "anchor not found")
+		}
+		// Ctrl-C is bound to abort in the local keymaps too: the loop that binds it in every keymap runs after the last keymap is installed
+		r.Rule("C14.abort-bound-everywhere", "K1", "in loadBuiltinBinds every keymap installed in config.Binds is installed before the loop that binds Ctrl-C to abort in all keymaps: a local keymap (menu-select, isearch) installed afterwards has no Ctrl-C, the key falls through to the main keymap after the inserted candidate was committed, and Ctrl-C in the menu ends the Readline call with the candidate in the line", 2)
+		if LB := p.Func("(*keymap.Engine).loadBuiltinBinds"); LB != nil {
+			r.Fn(fnName(LB))
+			isAbortBind := func(in ssa.Instruction) bool {
+				mu, ok := in.(*ssa.MapUpdate)
+				if !ok || typeStr(mu.Map.Type()) != "map[string]inputrc.Bind" {
+					return false
+				}
+				// the Bind literal {Action: "abort"} is built in the same block
+				for _, x := range mu.Block().Instrs {
+					if st, isSt := x.(*ssa.Store); isSt {
+						if s, isS := constString(st.Val); isS && s == "abort" {
+							return true
+						}
+					}
+				}
+				if c, isC := mu.Value.(*ssa.Const); isC {
+					return strings.Contains(c.String(), "abort")
+				}
+				return false
+			}
+			var installs []*ssa.MapUpdate
+			nAbort := 0
+			eachInstr(LB, func(in ssa.Instruction) {
+				if isAbortBind(in) {
+					nAbort++
+				}
+				if mu, ok := in.(*ssa.MapUpdate); ok && typeStr(mu.Map.Type()) == "map[string]map[string]inputrc.Bind" {
+					installs = append(installs, mu)
+				}
+			})
+			if nAbort == 0 {
+				r.Bad("C14.abort-bound-everywhere", fnName(LB)+":abort-loop", p.Pos(LB.Pos()), "no keymap gets a built-in Ctrl-C → abort bind")
+			}
+			for i, mu := range installs {
+				w := pathAvoiding(LB, mu, isAbortBind, func(ssa.Instruction) bool { return false })
+				r.Check(w != nil, "C14.abort-bound-everywhere", siteKey(LB, "install-keymap", i), p.IPos(mu), "installed before the Ctrl-C loop", "this keymap is installed in config.Binds after the loop that binds Ctrl-C to abort in every keymap: it has no Ctrl-C, and the interrupt key falls through to the main keymap")
+			}
+		} else {
+			r.Unk("C14.abort-bound-everywhere", "(*keymap.Engine).loadBuiltinBinds", "-", "anchor not found")
+		}
 		// ClearMenu leaves the menu keymap whatever it is asked to drop
 		r.Rule("C14.clear-menu-leaves-keymap", "K1", "(*completion.Engine).ClearMenu leaves the menu-select keymap on every path on which that keymap is the local one, whether or not it is asked to drop the completions: a list kept on screen with no candidate selected must not keep the menu keymap, or the next typed key is looked up there", 1)
 		if CM := p.Func("(*completion.Engine).ClearMenu"); CM != nil {
@@ -2060,4 +2283,148 @@ func checkReadersAgreeOnOrder(c *Ctx, rule string) {
 	}
 	same := a[0] == b[0]
 	r.Check(same, rule, "core.PopKey~(*core.Keys).ReadKey", p.Pos(RK.Pos()), "same order: "+strings.Join(a[:2], ","), fmt.Sprintf("PopKey / PeekKey serve %s first and ReadKey serves %s first: typed-ahead keys overtake the keys a macro fed (the dispatcher reads the typed ones first), except for a command's argument (ReadKey reads the fed ones first)", a[0], b[0]))
+}
+
+// ---- C01.paired-nil: "A != nil" is used as the licence to dereference B
+//
+// Discovery (Engler's belief rule across two fields): a method call on the pointer loaded from
+// field B of a struct, executed under the known fact `field A of the same struct != nil` and under
+// no test of B itself, states the belief  A != nil  ⇒  B != nil.  The rule then demands of every
+// function that stores nil to B that, by the time the exported function it belongs to returns, A is
+// nil too (a store of nil to A on every path from the store of B to the return, or dominating it) —
+// a private helper that clears B alone is judged at its call sites.
+func checkPairedNil(c *Ctx, rule string) {
+	p, r := c.P, c.R
+	r.Rule(rule, "K4", "when a pointer field B of a struct is dereferenced under the sole guard that another pointer field A of the same struct is not nil, every function that sets B to nil also leaves A nil when it returns: otherwise the guarded use dereferences nil in the state the stopping function leaves behind", 1)
+	type belief struct{ tn, a, b string }
+	beliefs := map[belief]string{}
+	for _, f := range p.RepoFuncs {
+		if len(f.Blocks) == 0 {
+			continue
+		}
+		var bf FactMap
+		eachInstr(f, func(in ssa.Instruction) {
+			cl, ok := in.(*ssa.Call)
+			if !ok || cl.Call.IsInvoke() || len(cl.Call.Args) == 0 {
+				return
+			}
+			callee := staticCallee(cl)
+			if callee == nil || callee.Signature.Recv() == nil {
+				return
+			}
+			if _, isPtr := callee.Signature.Recv().Type().Underlying().(*types.Pointer); !isPtr {
+				return
+			}
+			ld, ok := cl.Call.Args[0].(*ssa.UnOp)
+			if !ok || ld.Op != token.MUL {
+				return
+			}
+			tn, fb, ok := fieldOf(ld.X)
+			if !ok {
+				return
+			}
+			if _, isPtr := ld.Type().Underlying().(*types.Pointer); !isPtr {
+				return
+			}
+			if bf == nil {
+				bf = blockFacts(f)
+			}
+			selfTested := false
+			var others []string
+			for fc := range factsAt(bf, in) {
+				v, trueMeansNil, ok := nilCmp(fc.Cond)
+				if !ok || fc.Val == trueMeansNil {
+					continue // not a "!= nil" fact
+				}
+				u, ok := v.(*ssa.UnOp)
+				if !ok || u.Op != token.MUL {
+					continue
+				}
+				t2, f2, ok := fieldOf(u.X)
+				if !ok || t2 != tn {
+					continue
+				}
+				if f2 == fb {
+					selfTested = true
+				} else {
+					others = append(others, f2)
+				}
+			}
+			if selfTested {
+				return
+			}
+			for _, a := range others {
+				beliefs[belief{tn, a, fb}] = p.IPos(in)
+			}
+		})
+	}
+	if len(beliefs) == 0 {
+		r.OK(rule, "no-cross-field-belief", "-", "no pointer field is dereferenced under the non-nil test of another field only")
+		return
+	}
+	var keys []belief
+	for b := range beliefs {
+		keys = append(keys, b)
+	}
+	sort.Slice(keys, func(i, j int) bool { return keys[i].tn+keys[i].a+keys[i].b < keys[j].tn+keys[j].a+keys[j].b })
+	for _, b := range keys {
+		b := b
+		nilStore := func(fld string) func(ssa.Instruction) bool {
+			return func(in ssa.Instruction) bool {
+				st, ok := isFieldStore(in, b.tn, fld)
+				return ok && isNilConst(st.Val)
+			}
+		}
+		isA, isB := nilStore(b.a), nilStore(b.b)
+		// judge(f, site): after `site` (a nil store to B, or a call of a helper that leaves B nil and A not) A becomes nil before f returns, or was nil before
+		var judge func(f *ssa.Function, site ssa.Instruction, depth int) (bool, string)
+		judge = func(f *ssa.Function, site ssa.Instruction, depth int) (bool, string) {
+			covered := pathAvoiding(f, site, func(x ssa.Instruction) bool { return isReturn(x) && x.Block() != f.Recover }, isA) == nil
+			if !covered {
+				eachInstr(f, func(x ssa.Instruction) {
+					if isA(x) && instrDominates(x, site) {
+						// A nil before, and not set again in between
+						covered = true
+					}
+				})
+			}
+			if covered {
+				return true, ""
+			}
+			if isPrivateHelper(f) && depth < 2 {
+				edges := p.callersOf(f)
+				if len(edges) == 0 {
+					return true, ""
+				}
+				for _, e := range edges {
+					if e.Site == nil || e.Caller.Func == nil || !inRepo(e.Caller.Func) {
+						continue
+					}
+					if ok, where := judge(e.Caller.Func, e.Site, depth+1); !ok {
+						return false, where
+					}
+				}
+				return true, ""
+			}
+			return false, fnName(f)
+		}
+		n := 0
+		for _, f := range p.RepoFuncs {
+			if len(f.Blocks) == 0 {
+				continue
+			}
+			eachInstr(f, func(in ssa.Instruction) {
+				if !isB(in) {
+					return
+				}
+				n++
+				ok, where := judge(f, in, 0)
+				r.Check(ok, rule, fmt.Sprintf("%s.%s⇒%s|%s", b.tn, b.a, b.b, siteKey(f, "nil-store", n-1)), p.IPos(in), fmt.Sprintf("%s is nil too when the function returns", b.a),
+					fmt.Sprintf("%s.%s is set to nil but %s can return with %s.%s still set: the use at %s dereferences %s under the sole guard %s != nil and panics in that state", b.tn, b.b, where, b.tn, b.a, beliefs[b], b.b, b.a))
+			})
+		}
+		if n == 0 {
+			r.OK(rule, fmt.Sprintf("%s.%s⇒%s", b.tn, b.a, b.b), beliefs[b], "the dereferenced field is never set to nil")
+		}
+	}
 }
